@@ -1106,4 +1106,99 @@ theorem mpf_cmp_z_spec (u : F) (hu : u.wf) (v : Z) (hv : v.wf) :
 
 example : mpf_cmp_z ⟨2, 1, [2 ^ 63, 1]⟩ ⟨1, [1]⟩ = 1 ∧ mpf_cmp_z ⟨2, 1, [2 ^ 63, 1]⟩ ⟨1, [2]⟩ = -1 ∧ mpf_cmp_z ⟨1, 2, [1]⟩ ⟨2, [0, 1]⟩ = 0 := by decide
 
+/-- mpf_cmp_ui: sign of the exact difference u - v for every unsigned long v (integers scaled by
+    B^(-min (lowExp u) 0) as in `mpf_cmp_spec`). -/
+theorem mpf_cmp_ui_spec (u : F) (hu : u.wf) (v : Nat) (hv : v < B) :
+    sgn (mpf_cmp_ui u v) =
+      sgn (u.mant * ((B ^ (u.lowExp - min u.lowExp 0).toNat : Nat) : Int) - (v : Int) * ((B ^ (0 - min u.lowExp 0).toNat : Nat) : Int)) := by
+  obtain ⟨u0, u1, u2⟩ := F.wf_bounds hu
+  have hPA : (0 : Int) < ((B ^ (u.lowExp - min u.lowExp 0).toNat : Nat) : Int) := by exact_mod_cast Bpow_pos _
+  have hPB : (0 : Int) < ((B ^ (0 - min u.lowExp 0).toNat : Nat) : Int) := by exact_mod_cast Bpow_pos _
+  have upos : u.size ≠ 0 → (0 : Int) < val u.d := fun h => by
+    have := lt_of_lt_of_le (Bpow_pos _) (u1 h); exact_mod_cast this
+  have hv0 : (0 : Int) ≤ v := by positivity
+  unfold mpf_cmp_ui F.mant
+  by_cases hn : u.size < 0
+  · rw [if_pos hn, if_pos hn]
+    exact sgn_eq_neg (by decide) (by nlinarith [mul_pos (upos (by omega)) hPA, mul_nonneg hv0 (le_of_lt hPB)])
+  · rw [if_neg hn, if_neg hn]
+    by_cases hvz : v = 0
+    · subst hvz
+      rw [if_pos rfl]
+      simp only [Nat.cast_zero, zero_mul, sub_zero]
+      by_cases h0 : u.size = 0
+      · rw [if_neg (by simpa using h0), u0 h0]; simp
+      · rw [if_pos h0]; exact sgn_eq_pos (by decide) (mul_pos (upos h0) hPA)
+    · rw [if_neg hvz, mpf_cmp_limb1_spec u hu v (by omega) hv 1, one_mul, sgn_sgn]
+
+example : mpf_cmp_ui ⟨2, 1, [2 ^ 63, 7]⟩ 7 = 1 ∧ mpf_cmp_ui ⟨2, 1, [0, 7]⟩ 7 = 0 ∧ mpf_cmp_ui ⟨1, 0, [7]⟩ 1 = -1 ∧
+    mpf_cmp_ui ⟨1, 2, [1]⟩ (B - 1) = 1 ∧ mpf_cmp_ui ⟨-1, 2, [1]⟩ 0 = -1 := by decide
+
+/-- mpf_cmp_si: sign of the exact difference u - v for every long v, LONG_MIN included. -/
+theorem mpf_cmp_si_spec (u : F) (hu : u.wf) (v : Int) (h1 : LONG_MIN ≤ v) (h2 : v ≤ LONG_MAX) :
+    sgn (mpf_cmp_si u v) =
+      sgn (u.mant * ((B ^ (u.lowExp - min u.lowExp 0).toNat : Nat) : Int) - v * ((B ^ (0 - min u.lowExp 0).toNat : Nat) : Int)) := by
+  obtain ⟨u0, u1, u2⟩ := F.wf_bounds hu
+  unfold LONG_MIN at h1; unfold LONG_MAX at h2
+  have hPA : (0 : Int) < ((B ^ (u.lowExp - min u.lowExp 0).toNat : Nat) : Int) := by exact_mod_cast Bpow_pos _
+  have hPB : (0 : Int) < ((B ^ (0 - min u.lowExp 0).toNat : Nat) : Int) := by exact_mod_cast Bpow_pos _
+  have hvu : (0 : Int) ≤ val u.d := by positivity
+  have upos : u.size ≠ 0 → (0 : Int) < val u.d := fun h => by
+    have := lt_of_lt_of_le (Bpow_pos _) (u1 h); exact_mod_cast this
+  unfold mpf_cmp_si
+  by_cases hs : (decide (u.size < 0) != decide (v < 0)) = true
+  · rw [if_pos hs]
+    have hs' : (u.size < 0 ∧ ¬ v < 0) ∨ (¬ u.size < 0 ∧ v < 0) := by
+      by_cases a : u.size < 0 <;> by_cases b : v < 0 <;> simp [a, b] at hs ⊢
+    unfold F.mant
+    rcases hs' with ⟨a, b⟩ | ⟨a, b⟩
+    · rw [if_neg (by omega), if_pos a]
+      have := upos (by omega)
+      exact sgn_eq_neg (by decide) (by nlinarith [mul_pos this hPA, mul_nonneg (show (0 : Int) ≤ v by omega) (le_of_lt hPB)])
+    · rw [if_pos (by omega), if_neg a]
+      exact sgn_eq_pos (by decide) (by nlinarith [mul_nonneg hvu (le_of_lt hPA), mul_pos (show (0 : Int) < -v by omega) hPB])
+  · rw [if_neg hs]
+    have same : (u.size < 0 ↔ v < 0) := by
+      by_cases a : u.size < 0 <;> by_cases b : v < 0 <;> simp [a, b] at hs ⊢
+    by_cases hu0 : u.size = 0
+    · rw [if_pos hu0]
+      have hm : u.mant = 0 := by unfold F.mant; rw [u0 hu0]; simp
+      have vn : ¬ v < 0 := fun h => by have := same.mpr h; omega
+      rw [hm, zero_mul, zero_sub]
+      by_cases hv0 : v = 0
+      · subst hv0; simp
+      · rw [if_pos hv0]
+        exact sgn_eq_neg (by decide) (by nlinarith [mul_pos (show (0 : Int) < v by omega) hPB])
+    · rw [if_neg hu0]
+      by_cases hv0 : v = 0
+      · subst hv0
+        rw [if_pos rfl, if_pos hu0, zero_mul, sub_zero]
+        have un : ¬ u.size < 0 := fun h => by have := same.mp h; omega
+        unfold F.mant; rw [if_neg un]
+        exact sgn_eq_pos (by decide) (mul_pos (upos hu0) hPA)
+      · rw [if_neg hv0]
+        dsimp only
+        generalize hsg : (if u.size ≥ 0 then (1 : Int) else -1) = usign
+        have hsg' : usign = 1 ∨ usign = -1 := by rw [← hsg]; by_cases a : u.size ≥ 0 <;> simp [a]
+        have mu : u.mant = usign * val u.d := by
+          unfold F.mant; rw [← hsg]
+          by_cases a : u.size ≥ 0
+          · rw [if_neg (by omega), if_pos a]; ring
+          · rw [if_pos (by omega), if_neg a]; ring
+        have hvv : toU64 (if v ≥ 0 then v else -v) = v.natAbs := by unfold toU64; split <;> omega
+        have mv : v = usign * (v.natAbs : Int) := by
+          rw [← hsg]
+          by_cases a : u.size ≥ 0
+          · have : ¬ v < 0 := fun h => by have := same.mpr h; omega
+            rw [if_pos a]; omega
+          · have : v < 0 := same.mp (by omega)
+            rw [if_neg a]; omega
+        rw [hvv, mpf_cmp_limb1_spec u hu v.natAbs (by omega) (by unfold B; omega) usign, sgn_usign_mul _ _ hsg']
+        congr 1
+        conv_rhs => rw [mu, mv]
+        ring
+
+example : mpf_cmp_si ⟨-1, 1, [2 ^ 63]⟩ LONG_MIN = 0 ∧ mpf_cmp_si ⟨-2, 1, [1, 2 ^ 63]⟩ LONG_MIN = -1 ∧
+    mpf_cmp_si ⟨1, 0, [1]⟩ 0 = 1 ∧ mpf_cmp_si ⟨-1, 0, [1]⟩ (-1) = 1 ∧ mpf_cmp_si ⟨1, 1, [5]⟩ (-5) = 1 := by decide
+
 end Mpir.Conv
